@@ -120,10 +120,14 @@ def _migrate_csv_to_rules(csv_file: str, config_dir: str, backup: bool = True) -
         csv_rules = load_merchant_rules(csv_file)
         content = csv_to_merchants_content(csv_rules)
 
-        # Write new file
+        # Write new file. Its existence is what marks the CSV as migrated (tally init
+        # does not migrate again once merchants.rules exists), so it must never be seen
+        # empty or half-written: write a temp file and rename it into place.
         new_file = os.path.join(config_dir, 'merchants.rules')
-        with open(new_file, 'w', encoding='utf-8') as f:
+        tmp_file = new_file + '.tmp'
+        with open(tmp_file, 'w', encoding='utf-8') as f:
             f.write(content)
+        os.replace(tmp_file, new_file)
         print(f"  {C.GREEN}✓{C.RESET} Created: config/merchants.rules")
         print(f"      Converted {len(csv_rules)} merchant rules to new format")
 
